@@ -9,6 +9,7 @@
        [k |-> "fromint", r, vi]                 register r := its type constructed from built-in integer number vi
        [k |-> "toflt", a]                       register a converted to double            (no state change)
        [k |-> "fromflt", r, vi]                 register r := its type constructed from double number vi
+       [k |-> "incdec", op, d]                  ++d, d++, --d, d--  (op in preinc / postinc / predec / postdec)
    Every register is loaded before it is read.  Each simulated behaviour of full depth is written as one JSON
    line; the C++ interpreter executes it on real objects and logs the abstract state after every step. *)
 EXTENDS Integers, Sequences, FiniteSets, TLC, CSV, Json, IOUtils
@@ -42,12 +43,15 @@ FromInt == \E r \in 1..NRegs, vi \in Offered :
 FromFlt == \E r \in 1..NRegs, vi \in Offered :
             /\ hist' = Append(hist, [k |-> "fromflt", r |-> r, vi |-> vi])
             /\ loaded' = loaded \cup {r}
+IncDec == \E op \in {"preinc", "postinc", "predec", "postdec"}, d \in loaded :
+            /\ hist' = Append(hist, [k |-> "incdec", op |-> op, d |-> d])
+            /\ UNCHANGED loaded
 ToFlt == \E a \in loaded :
             /\ hist' = Append(hist, [k |-> "toflt", a |-> a])
             /\ UNCHANGED loaded
 Next == /\ Len(hist) < Depth
         /\ IF Len(hist) < 2 THEN Load
-           ELSE (Load \/ Step \/ Step \/ Step \/ Cas \/ NegStep \/ CmpStep \/ FromInt \/ FromFlt \/ ToFlt)
+           ELSE (Load \/ Step \/ Step \/ Step \/ Cas \/ NegStep \/ CmpStep \/ FromInt \/ FromFlt \/ ToFlt \/ IncDec)
 Spec == Init /\ [][Next]_<<hist, loaded>>
 Emit == Len(hist) = Depth => CSVWrite("%1$s", <<ToJson(hist)>>, Out)
 =============================================================================
